@@ -63,7 +63,7 @@ def run(
     deadline: float = 6.0,
     workers: int | None = None,
     progress: bool = True,
-    unit_deadline: float | None = None,
+    max_hangs: int = 6,
 ) -> Acc:
     """Run every unit; returns the merged accumulator. `acc.notes['hang_units']` lists (unit_id, idx)."""
     n = workers or nworkers()
@@ -91,6 +91,10 @@ def run(
     last_print = t0
     try:
         while pending:
+            if len(hangs) >= max_hangs:
+                # a defect that hangs on a whole class of inputs: stop exploring, the candidates get confirmed alone
+                total.notes["aborted_after_hangs"] = len(hangs)
+                break
             try:
                 uid, status, payload = result_q.get(timeout=0.25)
             except queue.Empty:
@@ -146,13 +150,15 @@ def run(
                     flush=True,
                 )
     finally:
+        aborted = bool(pending)
         for _ in procs:
             try:
                 task_q.put(None)
             except Exception:
                 pass
         for p in procs:
-            p.join(0.5)
+            if not aborted:
+                p.join(0.5)
             if p.is_alive():
                 try:
                     os.kill(p.pid, signal.SIGKILL)
